@@ -97,7 +97,7 @@ def run(sim):
         rot += bulk
         ops.append(("wbytes", _filler(bulk)))
     for _ in range(nops):
-        menu = [("wbytes", 5), ("wtext", 4), ("rotate", 1), ("reopen", 1), ("reconstruct", 1)]
+        menu = [("wbytes", 5), ("wtext", 4), ("rotate", 1), ("reopen", 1), ("reconstruct", 1), ("reconfig", 1)]
         if browse:
             if nreaders < MAX_READERS:
                 menu.append(("ropen", 3))
@@ -121,16 +121,25 @@ def run(sim):
         elif kind == "rclose":
             nreaders -= 1
             ops.append((kind, sim.draw_int(0, MAX_READERS - 1, "reader")))
+        elif kind == "reconfig":
+            # close + a NEW LogFile on the same path with another configuration (the service was restarted with changed
+            # settings): what the earlier configuration left in the directory - more rotated files than the new retention
+            # count allows, a current file already longer than the new rotation length - is what the new object starts from
+            ops.append((kind, (sim.draw_choice([1, 2, 3, None], "maxRotatedFiles'"), sim.draw_choice([0, 10, 4, 25, 80], "rotateLength'"))))
         else:
             ops.append((kind, None))
     extra = [("wbytes", b"{after-crash-%d}" % i + b"p" * sim.draw_int(0, 30, "pad")) for i in range(2)]
-    sim.config = {"rotateLength": rot, "maxRotatedFiles": keep, "browse": browse, "bulk": bulk, "ops": [k for k, _ in ops]}
+    # the process restarted after a crash reconstructs the log with the configuration it died with ("same") or with another
+    # retention count (restart with changed settings)
+    restart = sim.draw_weighted([("same", 3), (1, 1), (2, 1), (3, 1), (None, 1)], "restart-maxRotatedFiles")
+    sim.config = {"rotateLength": rot, "maxRotatedFiles": keep, "browse": browse, "bulk": bulk, "ops": [k for k, _ in ops],
+                  "restart": restart}
     sim.event("history", rot, keep, " ".join("%s%d" % (k, len(d)) if k in WRITES else k if d is None else "%s%s" % (k, d) for k, d in ops))
     F = simfs.FS(sim)
     opened = []     # every reader handed out in this run (closed for good at the end, whatever happened)
     try:
         with simfs.Installed(F, [(logfile, "os", "os"), (logfile, "open", "open")]):
-            _enumerate(sim, F, rot, keep, ops, extra, opened)
+            _enumerate(sim, F, rot, keep, ops, extra, opened, restart)
     finally:
         for rd in opened:
             try:
@@ -200,7 +209,7 @@ def _match(segs, allb):
     return f(n, len(allb))
 
 
-def _enumerate(sim, F, rot, keep, ops, extra, opened):
+def _enumerate(sim, F, rot, keep, ops, extra, opened, restart="same"):
     d = os.path.join(F.root, "logs")
 
     def wipe():
@@ -210,9 +219,6 @@ def _enumerate(sim, F, rot, keep, ops, extra, opened):
                 os.remove(os.path.join(d, n))
         else:
             os.mkdir(d)
-
-    def make():
-        return logfile.LogFile("app.log", d, rotateLength=rot, maxRotatedFiles=keep)
 
     def files():
         """(numbers of rotated files sorted high..low, concatenation oldest-first incl. current)"""
@@ -246,10 +252,19 @@ def _enumerate(sim, F, rot, keep, ops, extra, opened):
             self.in_write = False
             self.lf = None
             self.readers = []          # [LogReader, may still be short of the end of its file]
+            # configuration of the LogFile at hand (op "reconfig" replaces it)
+            self.rot = rot
+            self.keep = keep
+            # model of the retention rule, from the statement and the constructor's documentation ("max number of log
+            # files the class creates ... it removes all log files above this number"): a rotation that completes under a
+            # retention count N leaves min(N, before + 1) rotated files, whatever an earlier configuration left behind;
+            # without one it leaves before + 1.  Exact while nothing fails; an upper bound once a rotation was cut short.
+            self.bound = 0
+            self.lossy = keep is not None     # a retention count is or was configured: old data may be gone by design
             self.construct()
 
         def construct(self):
-            self.lf = self._wrap(make())
+            self.lf = self._wrap(logfile.LogFile("app.log", d, rotateLength=self.rot, maxRotatedFiles=self.keep))
 
         def _wrap(self, lf):
             real = lf.rotate
@@ -260,12 +275,22 @@ def _enumerate(sim, F, rot, keep, ops, extra, opened):
                     sim.probe("auto_rotation")
                     if self.check and os.path.exists(os.path.join(d, "app.log")):
                         size = os.path.getsize(os.path.join(d, "app.log"))
-                        sim.check("rotated-file-at-least-rotateLength", size >= rot, self.size_wit,
-                                  "size-triggered rotation of a %d-byte file with rotateLength=%d" % (size, rot))
+                        sim.check("rotated-file-at-least-rotateLength", size >= self.rot, self.size_wit,
+                                  "size-triggered rotation of a %d-byte file with rotateLength=%d" % (size, self.rot))
                 self.rotations += 1
                 if self.readers:
                     sim.probe("rotation_with_live_reader")
-                return real()
+                before = self.bound
+                if self.keep is None:
+                    after = before + 1
+                else:
+                    after = min(self.keep, before + 1)
+                    if before > self.keep:
+                        sim.probe("rotation_starts_with_more_files_than_retention")
+                self.bound = max(before, after)      # while it is under way (and if it is cut short)
+                r = real()
+                self.bound = after
+                return r
 
             lf.rotate = rotate
             return lf
@@ -290,6 +315,18 @@ def _enumerate(sim, F, rot, keep, ops, extra, opened):
                 lf.rotate()
             elif kind == "reopen":
                 lf.reopen()
+            elif kind == "reconfig":
+                lf.close()
+                if (data[0], data[1] or self.rot) != (self.keep, self.rot):
+                    sim.probe("reconstructed_with_other_config")
+                    if data[0] is not None and self.bound > data[0]:
+                        sim.probe("retention_lowered_below_files_present")
+                    if data[1] and data[1] < self.rot:
+                        sim.probe("rotateLength_lowered")
+                self.keep = data[0]
+                self.rot = data[1] or self.rot
+                self.lossy = self.lossy or self.keep is not None
+                self.construct()
             else:
                 lf.close()
                 self.construct()
@@ -342,7 +379,17 @@ def _enumerate(sim, F, rot, keep, ops, extra, opened):
         def completed(self, data):
             self.stream += data
 
-    def oracle(full_lo, full_hi_stream, wit, ctx, strict_no_loss, expect_rotated=None):
+        def cap(self):
+            """most rotated files the statement allows right now (None: no retention count has been configured yet)"""
+            return self.bound if self.lossy else None
+
+        def floor(self):
+            """fewest rotated files the statement allows in a fault-free execution: the statement does not say WHEN the files
+            beyond a newly configured, smaller retention count go (the unchanged code: at the next rotation), so between
+            that reconfiguration and the first rotation after it anything from the new count up to what was there is accepted"""
+            return self.bound if self.keep is None else min(self.keep, self.bound)
+
+    def oracle(full_lo, full_hi_stream, wit, ctx, strict_no_loss, expect_rotated=None, at_most=None):
         """Concatenation must equal stream[s:e] with len(full_lo) <= e <= len(full_hi_stream) — i.e. it
         ends inside the (possibly torn) last write — and s == 0 when nothing may be lost."""
         nums, parts, cur = files()
@@ -360,11 +407,12 @@ def _enumerate(sim, F, rot, keep, ops, extra, opened):
                   % (ctx, nums, len(allb), len(full_lo), allb[-60:]))
         if strict_no_loss:
             sim.check("nothing-lost-without-retention", s_found == 0, wit, "%s %d leading bytes lost (no retention count configured); rotated=%s" % (ctx, s_found, nums))
-        if keep is not None:
-            sim.check("at-most-N-rotated", len(nums) <= keep, wit, "%s %d rotated files kept with maxRotatedFiles=%d: %s" % (ctx, len(nums), keep, nums))
+        if at_most is not None:
+            sim.check("at-most-N-rotated", len(nums) <= at_most, wit, "%s %d rotated files kept where the retention counts in force allow at most %d: %s" % (ctx, len(nums), at_most, nums))
         if expect_rotated is not None:
-            sim.check("exactly-newest-N-kept", len(nums) == expect_rotated and nums == list(range(expect_rotated, 0, -1)), wit,
-                      "%s rotated files %s, expected exactly %d newest" % (ctx, nums, expect_rotated))
+            lo, hi_n = expect_rotated
+            sim.check("exactly-newest-N-kept", lo <= len(nums) <= hi_n and nums == list(range(len(nums), 0, -1)), wit,
+                      "%s rotated files %s, expected exactly the %s newest" % (ctx, nums, lo if lo == hi_n else "%d..%d" % (lo, hi_n)))
         return nums
 
     # ---- crash-free pass
@@ -376,8 +424,7 @@ def _enumerate(sim, F, rot, keep, ops, extra, opened):
         for j, op in enumerate(ops):
             R.apply(op)
             marks.append(F.n)
-            exp = R.rotations if keep is None else min(keep, R.rotations)
-            oracle(R.stream, R.stream, "crash-free", "after op %d (%s):" % (j, op[0]), keep is None, expect_rotated=exp)
+            oracle(R.stream, R.stream, "crash-free", "after op %d (%s):" % (j, op[0]), not R.lossy, expect_rotated=(R.floor(), R.bound), at_most=R.cap())
     plan = list(F.log)
     total_auto = R.auto_rotations
     sim.event("points", len(plan), "auto_rotations", total_auto)
@@ -405,8 +452,11 @@ def _enumerate(sim, F, rot, keep, ops, extra, opened):
                 sim.fail("crash-fired", "", "crash point %d did not fire" % n)
             except simfs.SimCrash:
                 pass
+            # configuration and retention model at the moment of death (the very first constructor call may be the one that dies)
+            c_rot, c_keep, c_lossy, c_cap = rot, keep, keep is not None, (0 if keep is not None else None)
             if Rc is not None:
                 Rc.close_readers()     # the process is gone, and its descriptors with it
+                c_rot, c_keep, c_lossy, c_cap = Rc.rot, Rc.keep, Rc.lossy, Rc.cap()
             sim.fault("crash@" + opname)
             if torn:
                 sim.fault("torn_write")
@@ -415,13 +465,28 @@ def _enumerate(sim, F, rot, keep, ops, extra, opened):
             F.reboot()
             wit = "%s@%s" % (ops[j][0], opname)
             ctx = "crash at point %d/%d (%s %s torn=%d) in op %d:" % (n, len(plan), opname, rel, torn, j)
-            oracle(done, done + pending, wit, ctx, keep is None)
-            # the restarted process reconstructs the log and keeps writing
+            oracle(done, done + pending, wit, ctx, not c_lossy, at_most=c_cap)
+            # the restarted process reconstructs the log - with the configuration it died with, or with another retention
+            # count - and keeps writing
             F.arm()
             nums, parts, cur = files()
             on_disk = b"".join(parts) + cur
+            keep2 = c_keep if restart == "same" else restart
+            if keep2 != c_keep:
+                sim.probe("restart_with_other_retention")
+                if keep2 is not None and len(nums) > keep2:
+                    sim.probe("restart_retention_below_files_present")
+            rotated2 = []
             with sim.guard("reconstruct-raised", wit):
-                lf2 = logfile.LogFile("app.log", d, rotateLength=rot, maxRotatedFiles=keep)
+                lf2 = logfile.LogFile("app.log", d, rotateLength=c_rot, maxRotatedFiles=keep2)
+                real2 = lf2.rotate
+
+                def rotate2():
+                    r = real2()
+                    rotated2.append(1)
+                    return r
+
+                lf2.rotate = rotate2
                 more = b""
                 for _, data in extra:
                     lf2.write(data)
@@ -431,9 +496,15 @@ def _enumerate(sim, F, rot, keep, ops, extra, opened):
             nums2, parts2, cur2 = files()
             all2 = b"".join(parts2) + cur2
             whole = on_disk + more
-            sim.check("post-crash-contiguous", whole.endswith(all2) and (keep is not None or all2 == whole), wit,
+            sim.check("post-crash-contiguous", whole.endswith(all2) and (keep2 is not None or all2 == whole), wit,
                       lambda: "%s after reconstruction and %d more bytes the files hold %d bytes, not a suffix of survived+new (%d bytes); rotated=%s"
                       % (ctx, len(more), len(all2), len(whole), nums2))
+            if keep2 is not None and rotated2:
+                # a rotation completed under retention count keep2: whatever the dead process left (gaps in the numbering,
+                # more files than keep2), no more than keep2 rotated files remain
+                sim.probe("post_crash_rotation_under_retention")
+                sim.check("at-most-N-rotated", len(nums2) <= keep2, wit + "+restart",
+                          "%s after reconstruction with maxRotatedFiles=%s and %d rotation(s) there are %d rotated files: %s" % (ctx, keep2, len(rotated2), len(nums2), nums2))
             sim.step(1000000)
     # ---- errno family: ONE interposed call of the history fails with an OSError instead of killing the process.  The
     # application sees a normal return or the exception, reacts (tape: carry on with the same object / close and
@@ -515,11 +586,12 @@ def _enumerate(sim, F, rot, keep, ops, extra, opened):
         sim.check("contiguous-suffix", lost is not None, app.wit,
                   lambda: "%s files %s+current hold %d bytes that are not a contiguous, ordered piece of the written stream (%d writes, %d of them raised): %r"
                   % (ctx, nums, len(allb), len(app.segs), sum(1 for _, c in app.segs if not c), allb[-80:]))
-        if keep is None:
+        if not app.lossy:
             sim.check("nothing-lost-without-retention", lost == 0, app.wit,
-                      "%s %d bytes of writes that returned normally are missing (no retention count configured); rotated=%s" % (ctx, lost, nums))
-        else:
-            sim.check("at-most-N-rotated", len(nums) <= keep, app.wit, "%s %d rotated files kept with maxRotatedFiles=%d: %s" % (ctx, len(nums), keep, nums))
+                      "%s %d bytes of writes that returned normally are missing (no rotation under a retention count so far); rotated=%s" % (ctx, lost, nums))
+        if app.cap() is not None:
+            sim.check("at-most-N-rotated", len(nums) <= app.cap(), app.wit,
+                      "%s %d rotated files kept where the retention counts in force allow at most %d (now maxRotatedFiles=%s): %s" % (ctx, len(nums), app.cap(), app.keep, nums))
         if nums != list(range(len(nums), 0, -1)):
             sim.probe("errno_gap_in_numbering")
 
